@@ -145,9 +145,21 @@ func c01AgentHistory(R *vr.Result, rng *rand.Rand, id, mode string) {
 			}
 		}
 		l, lerr := iface.List()
+		lf, _ := iface.ListFull()
 		var got, want []string
 		for n, e := range l {
 			got = append(got, fmt.Sprintf("%s:%v", n, e.IsAdmin))
+			if mu := model[n]; mu != nil {
+				fe := lf[n]
+				for _, lc := range []int64{e.LastChanged.Unix(), fe.LastChanged.Unix()} {
+					if lc < mu.tLo || (lc > mu.tHi && mode == "") || lc > time.Now().Unix() {
+						viol("c01:agent:list-lastchanged", fmt.Sprintf("list/list-full report last-changed %d for %s, the current record was written in [%d,%d]", lc, n, mu.tLo, mu.tHi))
+					}
+				}
+				if mode == "" && mu.tLo > now-3000 && fe.ParamID != 1 {
+					viol("c01:agent:listfull-paramid", fmt.Sprintf("list-full reports parameter set %d for %s whose record was last written under the default set 1", fe.ParamID, n))
+				}
+			}
 		}
 		for n, mu := range model {
 			want = append(want, fmt.Sprintf("%s:%v", n, mu.admin))
